@@ -61,6 +61,7 @@ Record argsig := mkSig { s_name : string; s_type : option string; s_default : bo
 Definition bare (n : string) : argsig := mkSig n None false "...".
 
 Definition is_named (k : argkind) : bool := match k with ARG_NAMED | ARG_NAMED_OPT => true | _ => false end.
+Definition is_positional (k : argkind) : bool := match k with ARG_POS | ARG_OPT => true | _ => false end.
 
 (* Python truthiness of `str | None` *)
 Definition truthy (o : option string) : option string :=
@@ -84,7 +85,8 @@ Fixpoint gfa_loop (magic : bool) (i : nat) (acc : list argsig) (cnt : nat) (l : 
   match l with
   | [] => (acc, cnt)
   | a :: r =>
-      let cnt' := if negb magic && a_pos_only a then S cnt else cnt in
+      (* only a leading run of positional parameters can be positional-only (stubgen.py, fix d2bbe81) *)
+      let cnt' := if negb magic && a_pos_only a && is_positional (a_kind a) && Nat.eqb cnt i then S cnt else cnt in
       let acc1 := if is_named (a_kind a) && negb (existsb (fun s => starts_with "*" (s_name s)) acc)
                   then acc ++ [bare "*"] else acc in
       gfa_loop magic (S i) (acc1 ++ [sig_of i a]) cnt' r
@@ -252,13 +254,19 @@ Definition view_param (p : param) : param :=
   | None => mkParam (pname p) (pann p) None
   end.
 
-(* kinds, names, order, annotations of the source; positional-only = declared before `/`, or (mypy's reading of the
-   pre-PEP-570 convention) a positional parameter named __x.  magic methods: positional-only status is not shown. *)
+Fixpoint take_while {A} (f : A -> bool) (l : list A) : list A :=
+  match l with [] => [] | x :: r => if f x then x :: take_while f r else [] end.
+Fixpoint drop_while {A} (f : A -> bool) (l : list A) : list A :=
+  match l with [] => [] | x :: r => if f x then drop_while f r else l end.
+
+(* kinds, names, order, annotations of the source.  Positional-only = declared before `/`, plus (mypy's reading of the
+   pre-PEP-570 convention) the parameters named __x that directly continue that leading run; a name __x anywhere else
+   keeps its declared kind.  magic methods: positional-only status is not shown. *)
 Definition stub_view (magic : bool) (a : arguments) : arguments :=
   if magic then mkArgs [] (map view_param (posonly a ++ args a)) (option_map view_param (vararg a))
                        (map view_param (kwonly a)) (option_map view_param (kwarg a))
-  else mkArgs (map view_param (posonly a ++ filter flagged (args a)))
-              (map view_param (filter (fun p => negb (flagged p)) (args a)))
+  else mkArgs (map view_param (posonly a ++ take_while flagged (args a)))
+              (map view_param (drop_while flagged (args a)))
               (option_map view_param (vararg a)) (map view_param (kwonly a)) (option_map view_param (kwarg a)).
 
 (* ---------------------------------------------------------------- what Python's grammar guarantees for the source *)
@@ -289,11 +297,3 @@ Definition wf_params (a : arguments) : bool :=
    by design; the theorem is stated for functions where that changes nothing) *)
 Definition self_cls_plain (a : arguments) : bool :=
   forallb (fun p => if (pname p =? "self") || (pname p =? "cls") then negb (isSome (pann p)) else true) (all_params a).
-
-(* the `__x` names, if any, are a prefix of the positional-or-keyword parameters, and nothing else is called __x *)
-Fixpoint prefix_true (l : list bool) : bool :=
-  match l with [] => true | true :: r => prefix_true r | false :: r => forallb negb r end.
-
-Definition elide_ok (a : arguments) : bool :=
-  prefix_true (map flagged (args a)) &&
-  forallb (fun p => negb (flagged p)) (olist (vararg a) ++ kwonly a ++ olist (kwarg a)).
